@@ -300,20 +300,9 @@ def helper_metrics(ctx, cfg):
     shape = SHAPES[shp]
     x, xp = _bits(ctx, "x", shape, form)
     y, yp = _bits(ctx, "y", shape, form)
-    isfloat = []
-
-    def as_rational(fn):
-        # the helpers return a Python float; the harness compares payload scalars, so the float is converted to its exact rational
-        def w(*a):
-            r = fn(*a)
-            isfloat.append(type(r) is float)
-            return S.norm(r)
-
-        return w
-
     if kind == "hber":
-        out = ctx.call(as_rational(StandardMetrics.bit_error_rate), x, y)
-        ctx.ensure("returns_float", out.ok and all(isfloat), note=repr(out.exc) if not out.ok else "")
+        out = ctx.call(StandardMetrics.bit_error_rate, x, y)
+        ctx.ensure("returns_float", out.ok and type(out.value) is float, note=repr(out.exc) if not out.ok else "")
         if not out.ok:
             return
         v = scal(out.value)
@@ -322,8 +311,8 @@ def helper_metrics(ctx, cfg):
         ctx.ensure("equals_metric_class", oc.ok and close(v, scal(oc.value)))
         return
     B = cfg[3]
-    out = ctx.call(as_rational(StandardMetrics.block_error_rate), x, y, B)
-    ctx.ensure("returns_float", out.ok and all(isfloat), note=repr(out.exc) if not out.ok else "")
+    out = ctx.call(StandardMetrics.block_error_rate, x, y, B)
+    ctx.ensure("returns_float", out.ok and type(out.value) is float, note=repr(out.exc) if not out.ok else "")
     if not out.ok:
         return
     v = scal(out.value)
@@ -366,8 +355,8 @@ BIG = 10**12
 
 def _sym_state(ctx, m, tname, ename, hi=BIG):
     """set the metric's counters to symbolic non-negative integers with E <= T (the invariant of the data structure)"""
-    T = ctx.ints("T", (), 0, hi)
-    E = ctx.ints("E", (), 0, hi)
+    T = ctx.ints("T", (), 0, hi, dtype=getattr(m, tname).dtype)  # the dtype the real constructor chose for the counter
+    E = ctx.ints("E", (), 0, hi, dtype=getattr(m, ename).dtype)
     t0, e0 = scal(T), scal(E)
     ctx.assume(S.le(e0, t0))
     setattr(m, tname, T)
@@ -467,15 +456,16 @@ def reset(ctx, cfg):
     ctx.ensure("state_is_initial", S.land(S.eq(scal(getattr(m, tn)), 0), S.eq(scal(getattr(m, en)), 0)))
     f0 = _metric(kind, 2)[0]
     ctx.ensure("same_as_fresh_object", _frame(m) == fr == _frame(f0) and S.land(S.eq(scal(getattr(f0, tn)), 0), S.eq(scal(getattr(f0, en)), 0)), note="base case of L-fold: constructor state == reset state == (0, 0)")
-    oc = ctx.call(m.compute)
-    ctx.ensure("compute_after_reset_is_zero", oc.ok and S.eq(scal(oc.value), 0))
+    if not isinstance(scal(getattr(m, tn)), S.Sym) and not isinstance(scal(getattr(m, en)), S.Sym):  # (a counter left symbolic already failed state_is_initial)
+        oc = ctx.call(m.compute)
+        ctx.ensure("compute_after_reset_is_zero", oc.ok and S.eq(scal(oc.value), 0))
 
 
 def _s2_cfgs(tier):
     out = [Cfg("ber", "float32", 3, None), Cfg("ber", "complex64", 2, None)]
     out += [Cfg("bler", "float32", 4, 2), Cfg("bler", "float32", 3, None), Cfg("bler", "float32", 2, 1)]
     if tier == "thorough":
-        out += [Cfg("ber", "float32", 6, None), Cfg("bler", "float32", 6, 3), Cfg("bler", "complex64", 4, 2)]
+        out += [Cfg("ber", "float32", 6, None), Cfg("bler", "float32", 6, 3), Cfg("bler", "complex64", 2, 1)]
     return out
 
 
